@@ -7,13 +7,14 @@
 #   negif   `if c {A} else {B}` becomes `if !(c) {B} else {A}`
 #   hoist   `f(a, g(x))` as a statement becomes `t := g(x); f(a, t)`
 #   msg     every log line and fmt.Errorf message gets another wording
+#   elsewrap `if c { …; return }; rest` becomes `if c { …; return } else { rest }`
 #   guard   a trailing `if c {A}` of a loop body becomes `if !(c) { continue }; {A}`
 # Evidence is written to a scratch directory, not to /verif/evidence.
 # usage: rename_check.sh [rename|log|logall]...   (default: all three)
 set -u
 export GOFLAGS=-mod=mod GOPROXY=off GOSUMDB=off GOTOOLCHAIN=local
 cd /verif/checker && go build -o ../bin/renamer ./cmd/renamer || exit 2
-modes="${*:-rename log logall negif guard hoist msg}"
+modes="${*:-rename log logall negif guard hoist msg elsewrap}"
 rc=0
 for mode in $modes; do
 rm -rf /tmp/rename-repo /tmp/rename-verif && mkdir -p /tmp/rename-repo /tmp/rename-verif
